@@ -1,6 +1,7 @@
 (* C11 — z.Buffer returns what was written, in order, and sorts correctly.  Statements only.
    Model: Buffer/Buffer.v, Buffer/Sort.v; reference: Buffer/BufferSpec.v. *)
-From Ristretto Require Import Base.Word Buffer.Buffer Buffer.BufferSpec Buffer.BufferProofs.
+From Ristretto Require Import Base.Word Buffer.Buffer Buffer.BufferSpec Buffer.BufferProofs Buffer.Sort
+  Buffer.SortProofs.
 From Coq Require Import Permutation.
 Open Scope N_scope.
 
@@ -92,3 +93,97 @@ Proof.
     unfold small_slices in HL. rewrite Forall_app in HL. destruct HL as (_ & H). now inversion H.
   - apply slice_beyond.
 Qed.
+
+(* Sorting.  sort.Slice is [sorter]: any function that returns a permutation of the offsets it is given
+   (hypothesis of C11_sort_perm) and that orders them when the comparison is a strict weak order (additional
+   hypothesis [sorter_sorts] of C11_sort_sorted).  The buffer holds the slices L0 ++ L ++ L2 and start / end are
+   the boundaries of L (start = 8, L0 = L2 = [] is SortSlice).  For EVERY boolean [less] — no order property
+   assumed — and every number of slices (any number of 1024-slice chunks) the sort ends normally, the range
+   holds a permutation of L afterwards, and everything outside it (the slices before and after, the padding,
+   the unused memory, length, capacity, mode, limits) is untouched. *)
+Theorem C11_sort_perm :
+  forall (sorter : (N * list N -> N * list N -> bool) -> list (N * list N) -> list (N * list N))
+         (less : list N -> list N -> bool),
+  (forall lt l, Permutation (sorter lt l) l) ->
+  forall b L0 L L2 start end_,
+  wf b -> bytes b = enc_slices (L0 ++ L ++ L2) -> small_slices (L0 ++ L ++ L2) ->
+  start = pad + lenN (enc_slices L0) -> end_ = start + lenN (enc_slices L) ->
+  exists b' L', sort_slice_between sorter less b start end_ = SortOk b' /\
+    bytes b' = enc_slices (L0 ++ L' ++ L2) /\ Permutation L' L /\ wf b' /\
+    b_padb b' = b_padb b /\ b_rest b' = b_rest b /\ b_off b' = b_off b /\ b_curSz b' = b_curSz b /\
+    b_maxSz b' = b_maxSz b /\ b_mode b' = b_mode b /\ b_auto b' = b_auto b.
+Proof.
+  intros sorter less Hp b L0 L L2 start end_ W HB HS Hs He.
+  destruct (sort_between_spec sorter less Hp b L0 L L2 start end_ W HB HS Hs He)
+    as (b' & L' & H1 & H2 & H3 & H4 & H5 & H6 & H7 & H8 & H9 & H10 & H11 & _).
+  exists b', L'. repeat (split; [assumption|]). assumption.
+Qed.
+
+(* If less is a strict weak order (and sort.Slice orders under it) no slice of the range is less than its
+   predecessor afterwards. *)
+Theorem C11_sort_sorted :
+  forall (sorter : (N * list N -> N * list N -> bool) -> list (N * list N) -> list (N * list N))
+         (less : list N -> list N -> bool),
+  (forall lt l, Permutation (sorter lt l) l) -> sorter_sorts sorter -> strict_weak_order less ->
+  forall b L0 L L2 start end_,
+  wf b -> bytes b = enc_slices (L0 ++ L ++ L2) -> small_slices (L0 ++ L ++ L2) ->
+  start = pad + lenN (enc_slices L0) -> end_ = start + lenN (enc_slices L) ->
+  exists b' L', sort_slice_between sorter less b start end_ = SortOk b' /\
+    bytes b' = enc_slices (L0 ++ L' ++ L2) /\ Permutation L' L /\ sorted_by less L'.
+Proof.
+  intros sorter less Hp Hsort Hswo b L0 L L2 start end_ W HB HS Hs He.
+  destruct (sort_between_spec sorter less Hp b L0 L L2 start end_ W HB HS Hs He)
+    as (b' & L' & H1 & H2 & H3 & _ & _ & _ & _ & _ & _ & _ & _ & H12).
+  exists b', L'. repeat (split; [assumption|]). now apply H12.
+Qed.
+
+(* SortSlice = SortSliceBetween(StartOffset, offset); start >= end does nothing; start = 0 panics. *)
+Theorem C11_sort_edges : forall sorter less b start end_,
+  sort_slice sorter less b = sort_slice_between sorter less b pad (b_off b) /\
+  (end_ <= start -> sort_slice_between sorter less b start end_ = SortOk b) /\
+  (0 < end_ -> sort_slice_between sorter less b 0 end_ = SortPanicStartZero).
+Proof.
+  intros. split; [reflexivity|]. unfold sort_slice_between. split; intros H.
+  - now replace (end_ <=? start) with true by lia.
+  - now replace (end_ <=? 0) with false by lia.
+Qed.
+
+(* The assumptions on sort.Slice are satisfiable: the insertion sort the runner uses meets both. *)
+Theorem C11_sorter_exists :
+  (forall lt l, Permutation (@insertion_sort (N * list N) lt l) l) /\ sorter_sorts (@insertion_sort (N * list N)).
+Proof. split; [apply insertion_sort_perm|apply insertion_sort_sorts]. Qed.
+
+(* A concrete history meeting the hypotheses: a 64-byte calloc buffer with auto-mmap threshold 100 and size
+   limit 150 takes four slices (growing 64 -> 136 exactly when offset + n = capacity, and switching to mmap), refuses a fifth,
+   reads them back, and sorts them bytewise. *)
+Definition c11_b0 : buffer :=
+  with_max_size (match with_auto_mmap (new_buffer 0) 100 with Some b => b | None => new_buffer 0 end) 150.
+Definition c11_ops : list op :=
+  [OWriteSlice [3; 1]; OSliceAllocate 30 (repeat 9 30); OWriteSlice []; OWriteSlice [2]; OWriteSlice (repeat 1 100)].
+Example C11_nonvacuous :
+  wf c11_b0 /\ clean c11_b0 /\ Forall filled c11_ops /\ Forall slice_op c11_ops /\
+  slices_run 150 c11_ops [] = [[3; 1]; repeat 9 30; []; [2]] /\
+  b_mode c11_b0 = Calloc /\ b_curSz c11_b0 = 64 /\
+  b_mode (run c11_ops c11_b0) = Mmap /\ b_curSz (run c11_ops c11_b0) = 136 /\
+  step_opt (run (firstn 4 c11_ops) c11_b0) (OWriteSlice (repeat 1 100)) = None /\
+  slice_all (run c11_ops c11_b0) = Some [[3; 1]; repeat 9 30; []; [2]] /\
+  slice_iterate (run c11_ops c11_b0) = Some [[3; 1]; repeat 9 30; [2]] /\
+  (exists b', sort_slice_exec lex_lt (run c11_ops c11_b0) = SortOk b' /\
+              slice_all b' = Some [[]; [2]; [3; 1]; repeat 9 30]) /\
+  strict_weak_order len_lt.
+Proof.
+  split; [unfold wf; vm_compute; auto|].
+  split; [unfold clean; vm_compute; repeat constructor|].
+  split; [repeat constructor|].
+  split; [repeat constructor; vm_compute; reflexivity|].
+  repeat (split; [vm_compute; reflexivity|]).
+  split.
+  - eexists. split; vm_compute; reflexivity.
+  - unfold strict_weak_order, len_lt. repeat split; intros; lia.
+Qed.
+
+Print Assumptions C11_bytes.
+Print Assumptions C11_slices.
+Print Assumptions C11_maxsize.
+Print Assumptions C11_sort_perm.
+Print Assumptions C11_sort_sorted.
